@@ -16,7 +16,7 @@ Fixpoint rmapM {A B} (f : A -> res B) (l : list A) : res (list B) :=
 
 Inductive inner := InG (g : GraphIO.G) | InS (s : sgraph).
 
-Record acyc := mkAc { ag : inner; aom : omap }.
+Record acyc := mkAc { ag : inner; aom : omap; ablen : nat (* length of the two scratch bit sets *) }.
 
 Section A.
   Variable cap : nat.
@@ -49,8 +49,8 @@ Section A.
     rbind (rmapM (adj i 1) (live i)) (fun ins =>
       Ok (mkView true (ibound i) (Some (ibound i)) (live i) outs ins 0 0 []))).
 
-  Definition empty_g : acyc := mkAc (InG g_empty) om_empty.
-  Definition empty_s : acyc := mkAc (InS (sg_empty cap)) om_empty.
+  Definition empty_g : acyc := mkAc (InG g_empty) om_empty 0.
+  Definition empty_s : acyc := mkAc (InS (sg_empty cap)) om_empty 0.
 
   (* ---- mutations; Panic leaves the caller's state alone (the harness restores a clone) ---- *)
   Definition lift_idx {G} (r : (gerr + nat) * G) : res (nat * G) :=
@@ -84,7 +84,7 @@ Section A.
 
   Definition ac_add_node (s : acyc) (w : nat) : res (nat * acyc) :=
     rbind (inner_add_node (ag s) w) (fun '(n, i') =>
-      rmap (fun '(_, om') => (n, mkAc i' om')) (om_add_node (aom s) n (ibound i'))).
+      rmap (fun '(_, om') => (n, mkAc i' om' (ablen s))) (om_add_node (aom s) n (ibound i'))).
 
   Inductive eerr := ECycle (n : nat) | ESelfLoop.
 
@@ -93,19 +93,20 @@ Section A.
     if Nat.eqb a b then Ok (inl ESelfLoop, s)
     else
       rbind (view_of (ag s)) (fun v =>
-      rbind (update_ordering debug v (aom s) a b) (fun r =>
+      rbind (update_ordering debug v (ablen s) (aom s) a b) (fun '(r, bl) =>
         match r with
-        | inl c => Ok (inl (ECycle c), s)
+        | inl c => Ok (inl (ECycle c), mkAc (ag s) (aom s) bl)
         | inr om' =>
-            rmap (fun '(e, i') => (inr e, mkAc i' om'))
+            rmap (fun '(e, i') => (inr e, mkAc i' om' bl))
                  (if upd then inner_update_edge (ag s) a b w else inner_add_edge (ag s) a b w)
         end)).
 
-  Definition ac_is_valid_edge (s : acyc) (a b : nat) : res bool :=
-    rbind (view_of (ag s)) (fun v => is_valid_edge debug v (aom s) a b).
+  Definition ac_is_valid_edge (s : acyc) (a b : nat) : res (bool * acyc) :=
+    rbind (view_of (ag s)) (fun v =>
+      rmap (fun '(r, bl) => (r, mkAc (ag s) (aom s) bl)) (is_valid_edge debug v (ablen s) (aom s) a b)).
 
   Definition ac_remove_edge (s : acyc) (e : nat) : res (option nat * acyc) :=
-    rmap (fun '(r, i') => (r, mkAc i' (aom s))) (inner_remove_edge (ag s) e).
+    rmap (fun '(r, i') => (r, mkAc i' (aom s) (ablen s))) (inner_remove_edge (ag s) e).
 
   (* remove_node: an absent node leaves everything alone; Graph::remove_node moves the last node into
      the vacated index and its position moves with it *)
@@ -122,8 +123,8 @@ Section A.
       rbind (om_remove_node (aom s) a) (fun om1 =>
       rbind (inner_remove_node (ag s) a) (fun '(r, i') =>
         if andb (negb (Nat.eqb a last)) (icontains i' a)
-        then rmap (fun om2 => (r, mkAc i' om2)) (om_rename om1 last a)
-        else Ok (r, mkAc i' om1))).
+        then rmap (fun om2 => (r, mkAc i' om2 (ablen s))) (om_rename om1 last a)
+        else Ok (r, mkAc i' om1 (ablen s)))).
 
   (* into_inner, an unchecked add_edge on the wrapped graph, then TryFrom *)
   Definition ac_raw_edge (s : acyc) (a b w : nat) : res ((nat + unit) * acyc) :=
@@ -132,7 +133,7 @@ Section A.
     rbind (toposort v) (fun t =>
       match t with
       | inl c => Ok (inl c, s)
-      | inr order => rmap (fun om => (inr tt, mkAc i' om)) (om_from_topo order (ibound i'))
+      | inr order => rmap (fun om => (inr tt, mkAc i' om (ibound i'))) (om_from_topo order (ibound i'))
       end))).
 
   (* ---- observations ---- *)
@@ -182,8 +183,10 @@ Section A.
                  (fun e => (TAG_IDX, [zn e]))
     | 5 => rstep s (ac_remove_edge s (arg a 0)) opt_line
     | 6 => rstep s (ac_remove_node s (arg a 0)) opt_line
-    | 7 => (s, [match ac_is_valid_edge s (arg a 0) (arg a 1) with
-                | Ok b => (TAG_BOOL, [zb b]) | Panic => (TAG_PANIC, []) | OutOfFuel => (TAG_FUEL, []) end])
+    | 7 => match ac_is_valid_edge s (arg a 0) (arg a 1) with
+           | Ok (b, s') => (s', [(TAG_BOOL, [zb b])])
+           | Panic => (s, [(TAG_PANIC, [])])
+           | OutOfFuel => (s, [(TAG_FUEL, [])]) end
     | 8 => rstep s (ac_raw_edge s (arg a 0) (arg a 1) (arg a 2))
                  (fun r => match r with inl c => (TAG_CYCLE, [zn c]) | inr _ => (TAG_BOOL, [1%Z]) end)
     | 9 => (s, [(TAG_RANGE, zns (map snd (filter (fun '(p, _) => in_range (arg a 0) (arg a 1) p) (p2n (aom s)))))])
